@@ -20,6 +20,12 @@ ASSUMPTIONS = ["comprehension over a byte sequence is elementwise (map-concat): 
                "os.path / devices.open_device / file system are external (A5); path derivation of make_* directives is covered by a bounded stand-in only"]
 
 
+def format_fn(eng, name):
+    """the function registered under `name` in formats.file_formats (the registry emit_files / main_cli call through)"""
+    reg = eng.resolve_global(eng.load_module("formats"), "file_formats")
+    return reg[name]
+
+
 def sym_bytes(eng, name, length=None):
     return abstract_seq(name, length)
 
@@ -34,7 +40,7 @@ def unit_bin(eng):
         n = int_input(eng, "len")
         eng.assume(n == slen(code))
         eng.I.update(base=base, code=code)
-        f = find_func(eng, "formats", ["bin_"])
+        f = format_fn(eng, "bin")
         return eng.call(f, [base, code], {})
 
     def post(eng, outcome):
@@ -59,7 +65,7 @@ def unit_raw(eng):
         eng.I = {}
         code = sym_bytes(eng, "code")
         eng.I["code"] = code
-        return eng.call(find_func(eng, "formats", ["raw"]), [int_input(eng, "base"), code], {})
+        return eng.call(format_fn(eng, "raw"), [int_input(eng, "base"), code], {})
     return verify(eng, "formats.raw", run, lambda eng, o: eng.prove("raw-is-the-bytes", o[0] == "return" and o[1] is eng.I["code"]), func="formats.raw")
 
 
@@ -161,7 +167,7 @@ def unit_encode_as_wav(eng, turbo, via):
         if via == "direct":
             f = find_func(eng, "bk_wav", ["encode_as_wav"])
             return eng.call(f, [base, code, namev], {"turbo": True} if turbo else {})
-        f = find_func(eng, "formats", ["bk_turbo_wav" if turbo else "bk_wav"])
+        f = format_fn(eng, "bk_turbo_wav" if turbo else "bk_wav")
         return eng.call(f, [base, code, namev], {})
 
     def post(eng, outcome):
